@@ -987,8 +987,13 @@ class RecordLayer(object):
                 data, contentType = self._tls13_de_pad(data)
                 header = RecordHeader3().create((3, 4), contentType, len(data))
 
-            # RFC 5246, section 6.2.1
-            if len(data) > self.recv_record_limit:
+            # RFC 5246, section 6.2.1; a negotiated record size limit
+            # applies to protected records only (RFC 8449, section 4)
+            limit = 2**14
+            if self._readState and (self._readState.encContext or
+                                    self._readState.macContext):
+                limit = self.recv_record_limit
+            if len(data) > limit:
                 raise TLSRecordOverflow()
 
             yield (header, Parser(data))
